@@ -324,7 +324,7 @@ PINNED = [
                           {"v": "context", "u": "data", "w": "context", "log": "context", "exp": "builtin"}], "formula": "0 + log(v) + u"}),
 ]
 SUBS = {
-    "required": Sub(judge=judge_required, gen=gen_required, quick=700, thorough=60_000, min_decided=150),
-    "layers": Sub(judge=judge_layers, gen=gen_layers, quick=700, thorough=60_000, min_decided=150),
-    "dot": Sub(judge=judge_dot, gen=gen_dot, quick=700, thorough=60_000, min_decided=150),
+    "required": Sub(judge=judge_required, gen=gen_required, quick=2000, thorough=60_000, min_decided=150),
+    "layers": Sub(judge=judge_layers, gen=gen_layers, quick=2000, thorough=60_000, min_decided=150),
+    "dot": Sub(judge=judge_dot, gen=gen_dot, quick=2000, thorough=60_000, min_decided=150),
 }
